@@ -74,6 +74,16 @@ def _functions_of(mod):
             if id(v) not in seen:
                 seen.add(id(v))
                 yield v
+        elif hasattr(v, "cache_clear") and callable(v) and getattr(v, "__module__", None) == mod.__name__:
+            # a module-level function wrapped in functools.lru_cache / cache: the wrapper (cleared on reset) and the
+            # function under it (defaults and attributes)
+            if id(v) not in seen:
+                seen.add(id(v))
+                yield v
+            w = getattr(v, "__wrapped__", None)
+            if isinstance(w, _FUNC_TYPES) and id(w) not in seen:
+                seen.add(id(w))
+                yield w
         elif isinstance(v, type) and getattr(v, "__module__", None) == mod.__name__:
             for an, av in list(vars(v).items()):
                 f = av.__func__ if isinstance(av, (staticmethod, classmethod)) else av
